@@ -6,6 +6,7 @@
 
 use simkernel::cli::{self, CliRun, FaultAction, FaultSpec, PlanSpec, Scratch};
 use simkernel::inputs::{extra_entries, input_sets, InputSet};
+use std::borrow::Cow;
 use simkernel::serde_json::{json, Value};
 use simkernel::{Chooser, Report, Rng, Violation};
 use std::collections::{BTreeMap, HashMap, HashSet};
@@ -21,7 +22,7 @@ const ENGINE: &str = "os";
 const SPELLINGS: [&str; 10] = ["absolute", "relative-with-dir", "dot-slash", "bare-name", "dotdot-dir", "double-slash", "dir-dot-name", "dir-sub-dotdot-name", "symlink-dotdot (other/lnk/../name, lnk -> ../w/sub)", "nonexistent-dotdot (w/nonexistent/../name: not a valid path)"];
 const OUTPUTS: [&str; 4] = ["default", "-o absolute same dir", "-o relative", "-o absolute other dir"];
 const PRE: [&str; 8] = ["absent", "shorter", "longer", "same-length", "longer-by-3", "expected+newline", "expected+blank-lines", "expected-with-one-byte-changed"];
-const EXTRAS: [&str; 9] = ["none", "valid unrelated .xsd", "malformed .xsd", "non-schema .xsd", "40 unrelated files", "hidden .xsd", "upper-case .XSD", "empty .xsd", "directory named *.xsd"];
+const EXTRAS: [&str; 10] = ["none", "valid unrelated .xsd", "malformed .xsd", "non-schema .xsd", "14 unrelated files", "hidden .xsd", "upper-case .XSD", "empty .xsd", "directory named *.xsd", "256 unreadable .xsd files"];
 
 /// (symbol, class, max index explored in seeded mode, actions)
 fn targets() -> Vec<(&'static str, &'static str, u64, Vec<FaultAction>)> {
@@ -74,13 +75,22 @@ struct Case {
     stderr_full: bool,
     /// RUST_LOG: 0 unset, 1 debug, 2 trace
     rust_log: u64,
+    /// TMPDIR of the tool: 0 a private directory of this run; 1 the directory of the output; 2 "."
+    tmpdir: u64,
+    /// 0: sibling files keep their names; 1: every imported sibling is renamed `name-1.0.xsd` (the schemaLocations are
+    /// rewritten accordingly): names with more than one dot
+    sib_style: u64,
 }
 
 const NAME_STYLES: [&str; 4] = ["as-is", "two-dots", "blank-in-name", "non-ascii-name"];
 const LINK_STYLES: [&str; 3] = ["regular files", "siblings are symlinks", "directory reached through a symlink"];
 
 fn arg_form_name(k: u64) -> &'static str {
-    ["-i P -o Q", "--output Q --input P", "--input=P --output=Q", "-oQ -iP"][k as usize % 4]
+    ["-i P -o Q", "--output Q --input P", "--input=P --output=Q", "-oQ -iP", "-i=P -o=Q"][k as usize % 5]
+}
+
+fn tmpdir_name(k: u64) -> &'static str {
+    ["private to the run", "the output's directory", "."][k as usize % 3]
 }
 
 fn rust_log_name(k: u64) -> &'static str {
@@ -104,8 +114,8 @@ fn decode_case(ch: &mut Chooser, nsets: usize) -> Case {
     let spelling = ch.choose("spelling", 10);
     let output = ch.choose("output", 4);
     let pre = ch.choose("preexisting", 8);
-    let extra = ch.choose("extra_sibling", 9);
-    let arg_form = ch.choose("argument_form", 4);
+    let extra = ch.choose("extra_sibling", 10);
+    let arg_form = ch.choose("argument_form", 5);
     let longflags = arg_form == 1;
     let entropy = ch.choose("entropy", u64::MAX);
     let dirperm = ch.choose("dirperm", u64::MAX);
@@ -123,7 +133,9 @@ fn decode_case(ch: &mut Chooser, nsets: usize) -> Case {
     let link_style = ch.choose("link_style", 3);
     let stderr_full = ch.choose("stderr_is_dev_full", 2) == 1;
     let rust_log = ch.choose("rust_log", 3);
-    Case { input, spelling, output, pre, extra, longflags, arg_form, entropy, dirperm, fault, name_style, link_style, stderr_full, rust_log }
+    let tmpdir = ch.choose("tmpdir", 3);
+    let sib_style = ch.choose("sibling_name_style", 2);
+    Case { input, spelling, output, pre, extra, longflags, arg_form, entropy, dirperm, fault, name_style, link_style, stderr_full, rust_log, tmpdir, sib_style }
 }
 
 fn encode_case(c: &Case) -> Vec<u64> {
@@ -136,7 +148,7 @@ fn encode_case(c: &Case) -> Vec<u64> {
     } else {
         t.push(0);
     }
-    t.extend([c.name_style, c.link_style, u64::from(c.stderr_full), c.rust_log]);
+    t.extend([c.name_style, c.link_style, u64::from(c.stderr_full), c.rust_log, c.tmpdir, c.sib_style]);
     t
 }
 
@@ -173,14 +185,39 @@ fn lib_run(dir: &Path, start: &str, entropy: u64) -> Result<Vec<u8>, String> {
 }
 
 fn materialise(dir: &Path, set: &InputSet, extra: u64) {
-    materialise_styled(dir, set, extra, 0, 0);
+    materialise_styled(dir, set, extra, 0, 0, 0);
 }
 
-fn materialise_styled(dir: &Path, set: &InputSet, extra: u64, name_style: u64, link_style: u64) {
+fn sibling_name(n: &str, sib_style: u64) -> String {
+    match (sib_style, n.strip_suffix(".xsd")) {
+        (1, Some(stem)) => format!("{stem}-1.0.xsd"),
+        _ => n.to_string(),
+    }
+}
+
+fn materialise_styled(dir: &Path, set: &InputSet, extra: u64, name_style: u64, link_style: u64, sib_style: u64) {
     let _ = std::fs::create_dir_all(dir);
     let store = dir.parent().map(|p| p.join("store"));
     for (n, b) in &set.files {
-        let name = if n == &set.start { styled_start(n, name_style) } else { n.clone() };
+        let name = if n == &set.start { styled_start(n, name_style) } else { sibling_name(n, sib_style) };
+        // renamed siblings: rewrite the schemaLocations that name them (text files only)
+        let b: Cow<[u8]> = if sib_style == 1 {
+            match std::str::from_utf8(b) {
+                Ok(t) => {
+                    let mut t = t.to_string();
+                    for (o, _) in &set.files {
+                        if o != &set.start && o.ends_with(".xsd") {
+                            t = t.replace(&format!("schemaLocation=\"{o}\""), &format!("schemaLocation=\"{}\"", sibling_name(o, 1)));
+                        }
+                    }
+                    Cow::Owned(t.into_bytes())
+                }
+                Err(_) => Cow::Borrowed(b.as_slice()),
+            }
+        } else {
+            Cow::Borrowed(b.as_slice())
+        };
+        let b = b.as_ref();
         if link_style == 1 && n != &set.start {
             if let Some(st) = &store {
                 let _ = std::fs::create_dir_all(st);
@@ -269,7 +306,7 @@ fn run_once(sets: &[InputSet], c: &Case, spelling: u64, expected: &Expected) -> 
     let top = sc.path.clone();
     let w = top.join("w");
     let outdir = top.join("outdir");
-    materialise_styled(&w, set, c.extra, c.name_style, c.link_style);
+    materialise_styled(&w, set, c.extra, c.name_style, c.link_style, c.sib_style);
     let _ = std::fs::create_dir_all(&outdir);
     // the directory as the tool is told about it: `w`, or the symbolic link `wl -> w`
     let (w, wname) = if c.link_style == 2 {
@@ -346,7 +383,8 @@ fn run_once(sets: &[InputSet], c: &Case, spelling: u64, expected: &Expected) -> 
         0 => args.extend([short.to_string(), val]),
         1 => args.extend([long.to_string(), val]),
         2 => args.push(format!("{long}={val}")),
-        _ => args.push(format!("{short}{val}")),
+        3 => args.push(format!("{short}{val}")),
+        _ => args.push(format!("{short}={val}")),
     };
     // the output option first in half of the forms: the order of options is not part of the input either
     if c.arg_form % 2 == 1 {
@@ -360,7 +398,10 @@ fn run_once(sets: &[InputSet], c: &Case, spelling: u64, expected: &Expected) -> 
             push_opt("-o", "--output", o);
         }
     }
-    let before = snapshot(&top);
+    // the stray-file probe walks and reads the whole scratch tree twice: done for one case in four (by tape, so
+    // that it is the same cases in every run)
+    let probe_stray = (c.input as u64 + c.spelling + c.output + c.pre + c.extra + c.dirperm % 7) % 4 == 0;
+    let before = if probe_stray { snapshot(&top) } else { BTreeMap::new() };
     let plan = PlanSpec {
         root: top.clone(),
         input: w.join(start),
@@ -372,10 +413,19 @@ fn run_once(sets: &[InputSet], c: &Case, spelling: u64, expected: &Expected) -> 
         faults: c.fault.iter().cloned().collect(),
         stderr_full: c.stderr_full,
         rust_log: [None, Some("debug"), Some("trace")][c.rust_log as usize % 3],
+        tmpdir: Some(match c.tmpdir {
+            1 => out_abs.parent().map_or_else(|| top.clone(), Path::to_path_buf),
+            2 => PathBuf::from("."),
+            _ => {
+                let t = top.join("tmp");
+                let _ = std::fs::create_dir_all(&t);
+                t
+            }
+        }),
     };
     let run = cli::run_zeep(&top, &cwd, &args, &plan, "r");
     let out_after = std::fs::read(&out_abs).ok();
-    let after = snapshot(&top);
+    let after = if probe_stray { snapshot(&top) } else { BTreeMap::new() };
     let out_rel = out_abs.strip_prefix(&top).unwrap_or(&out_abs).to_string_lossy().to_string();
     let mut stray = Vec::new();
     let out_real = out_rel.replacen("wl/", "w/", 1); // the same file seen through the real directory
@@ -552,7 +602,7 @@ fn case_json(sets: &[InputSet], c: &Case) -> Value {
         "input_set": sets[c.input].name, "stage": sets[c.input].stage, "start_file": sets[c.input].start,
         "files": sets[c.input].files.iter().map(|(n, b)| json!({"name": n, "bytes": b.len(), "hash": format!("{:016x}", simkernel::hash_bytes(b))})).collect::<Vec<_>>(),
         "spelling": SPELLINGS[c.spelling as usize], "output": OUTPUTS[c.output as usize], "preexisting_output": PRE[c.pre as usize],
-        "extra_entries": EXTRAS[c.extra as usize], "stderr": if c.stderr_full { "/dev/full" } else { "pipe" }, "RUST_LOG": rust_log_name(c.rust_log), "argument_form": arg_form_name(c.arg_form), "start_file_name": styled_start(&sets[c.input].start, c.name_style), "name_style": NAME_STYLES[c.name_style as usize], "link_style": LINK_STYLES[c.link_style as usize],
+        "extra_entries": EXTRAS[c.extra as usize], "stderr": if c.stderr_full { "/dev/full" } else { "pipe" }, "RUST_LOG": rust_log_name(c.rust_log), "TMPDIR": tmpdir_name(c.tmpdir), "sibling_names": if c.sib_style == 1 { "renamed name-1.0.xsd" } else { "as in the set" }, "argument_form": arg_form_name(c.arg_form), "start_file_name": styled_start(&sets[c.input].start, c.name_style), "name_style": NAME_STYLES[c.name_style as usize], "link_style": LINK_STYLES[c.link_style as usize],
         "entropy": format!("{:x}", c.entropy), "dirperm": c.dirperm,
         "fault": c.fault.as_ref().map(FaultSpec::describe),
     })
@@ -602,7 +652,14 @@ fn run_batch(sets: &[InputSet], tapes: &[Vec<u64>]) -> Stats {
                     }
                     let mut ch = Chooser::replay(tapes[i].clone());
                     let c = decode_case(&mut ch, sets.len());
+                    let t_case = std::time::Instant::now();
                     let res = run_case(sets, &c);
+                    if std::env::var_os("VERIF_OS_PROFILE").is_some() {
+                        let ms = t_case.elapsed().as_millis();
+                        if ms > 60 {
+                            eprintln!("SLOW {ms}ms input={} extra={} pre={} link={} sib={} fault={:?} spelling={}", sets[c.input].name, c.extra, c.pre, c.link_style, c.sib_style, c.fault.as_ref().map(|f| f.describe()), c.spelling);
+                        }
+                    }
                     st.cases += 1;
                     st.runs += res.runs.len() as u64;
                     let mut sig = 0u64;
@@ -698,7 +755,7 @@ fn build_tapes(sets: &[InputSet], tier: &str, seed: u64) -> (Vec<Vec<u64>>, Valu
     let thorough = tier == "thorough";
     let mut tapes = Vec::new();
     // (1) configuration product without faults
-    let extras: Vec<u64> = if thorough { (0..9).collect() } else { vec![0, 2, 4, 8] };
+    let extras: Vec<u64> = if thorough { (0..10).collect() } else { std::env::var("VERIF_OS_EXTRAS").map_or(vec![0, 2, 4, 8, 9], |v| v.split(',').filter_map(|x| x.parse().ok()).collect()) };
     let mut n_cfg = 0u64;
     for input in 0..sets.len() {
         for spelling in 1..10u64 {
@@ -706,10 +763,13 @@ fn build_tapes(sets: &[InputSet], tier: &str, seed: u64) -> (Vec<Vec<u64>>, Valu
                 for pre in 0..8u64 {
                     for extra in &extras {
                         // quick: thin out by a fixed rule; thorough: everything
-                        if !thorough && (input as u64 * 7 + spelling * 5 + output * 3 + pre + *extra) % 7 != 0 {
+                        if !thorough && (input as u64 * 7 + spelling * 5 + output * 3 + pre + *extra) % 19 != 0 {
                             continue;
                         }
-                        let c = Case { input, spelling, output, pre, extra: *extra, longflags: (spelling + output) % 4 == 1, arg_form: (spelling + output) % 4, entropy: 0, dirperm: if *extra == 2 { 7 } else { 0 }, fault: None, name_style: ((input as u64 + spelling) % 4) * u64::from((output + pre) % 2 == 0), link_style: ((spelling + pre + *extra) % 3) * u64::from((input as u64 + output) % 2 == 1), stderr_full: (input as u64 + spelling + pre) % 5 == 0, rust_log: (spelling + output + pre) % 3 };
+                        if *extra == 9 && (input > 1 || output > 0 || pre > 2) {
+                            continue; // 256 files per run: a few cases are enough, the seeded mixes add more
+                        }
+                        let c = Case { input, spelling, output, pre, extra: *extra, longflags: (spelling + output) % 4 == 1, arg_form: (spelling + output + pre) % 5, entropy: 0, dirperm: if *extra == 2 { 7 } else { 0 }, fault: None, name_style: ((input as u64 + spelling) % 4) * u64::from((output + pre) % 2 == 0), link_style: ((spelling + pre + *extra) % 3) * u64::from((input as u64 + output) % 2 == 1), stderr_full: (input as u64 + spelling + pre) % 5 == 0, rust_log: (spelling + output + pre) % 3, tmpdir: (input as u64 + output + *extra) % 3, sib_style: (spelling + *extra) % 2 };
                         tapes.push(encode_case(&c));
                         n_cfg += 1;
                     }
@@ -721,24 +781,24 @@ fn build_tapes(sets: &[InputSet], tier: &str, seed: u64) -> (Vec<Vec<u64>>, Valu
     let idx_of = |name: &str| sets.iter().position(|s| s.name == name);
     let mut scen = Vec::new();
     if let Some(i) = idx_of("tempconverter") {
-        scen.push(Case { input: i, spelling: 2, output: 0, pre: 2, extra: 0, longflags: false, arg_form: 0, entropy: 0, dirperm: 0, fault: None, name_style: 0, link_style: 0, stderr_full: false, rust_log: 0 });
+        scen.push(Case { input: i, spelling: 2, output: 0, pre: 2, extra: 0, longflags: false, arg_form: 0, entropy: 0, dirperm: 0, fault: None, name_style: 0, link_style: 0, stderr_full: false, rust_log: 0, tmpdir: 0, sib_style: 0 });
     }
     if let Some(i) = idx_of("chain") {
-        scen.push(Case { input: i, spelling: 1, output: 2, pre: 1, extra: 1, longflags: true, arg_form: 1, entropy: 0, dirperm: 3, fault: None, name_style: 1, link_style: 1, stderr_full: false, rust_log: 1 });
+        scen.push(Case { input: i, spelling: 1, output: 2, pre: 1, extra: 1, longflags: true, arg_form: 1, entropy: 0, dirperm: 3, fault: None, name_style: 1, link_style: 1, stderr_full: false, rust_log: 1, tmpdir: 1, sib_style: 1 });
     }
     if let Some(i) = idx_of("big-cwmp") {
         // an output larger than 64 KiB: a tool that writes in chunks is failed at each of its chunks
-        scen.push(Case { input: i, spelling: 1, output: 1, pre: 2, extra: 0, longflags: false, arg_form: 0, entropy: 0, dirperm: 0, fault: None, name_style: 0, link_style: 0, stderr_full: false, rust_log: 0 });
+        scen.push(Case { input: i, spelling: 1, output: 1, pre: 2, extra: 0, longflags: false, arg_form: 0, entropy: 0, dirperm: 0, fault: None, name_style: 0, link_style: 0, stderr_full: false, rust_log: 0, tmpdir: 0, sib_style: 0 });
     }
     if thorough {
         if let Some(i) = idx_of("hello") {
-            scen.push(Case { input: i, spelling: 4, output: 3, pre: 0, extra: 0, longflags: false, arg_form: 0, entropy: 0, dirperm: 0, fault: None, name_style: 0, link_style: 0, stderr_full: false, rust_log: 0 });
+            scen.push(Case { input: i, spelling: 4, output: 3, pre: 0, extra: 0, longflags: false, arg_form: 0, entropy: 0, dirperm: 0, fault: None, name_style: 0, link_style: 0, stderr_full: false, rust_log: 0, tmpdir: 0, sib_style: 0 });
         }
         if let Some(i) = idx_of("malformed-sibling") {
-            scen.push(Case { input: i, spelling: 5, output: 1, pre: 2, extra: 0, longflags: false, arg_form: 0, entropy: 0, dirperm: 0, fault: None, name_style: 0, link_style: 0, stderr_full: false, rust_log: 0 });
+            scen.push(Case { input: i, spelling: 5, output: 1, pre: 2, extra: 0, longflags: false, arg_form: 0, entropy: 0, dirperm: 0, fault: None, name_style: 0, link_style: 0, stderr_full: false, rust_log: 0, tmpdir: 0, sib_style: 0 });
         }
         if let Some(i) = idx_of("orders") {
-            scen.push(Case { input: i, spelling: 1, output: 0, pre: 2, extra: 3, longflags: false, arg_form: 0, entropy: 0, dirperm: 5, fault: None, name_style: 2, link_style: 2, stderr_full: true, rust_log: 2 });
+            scen.push(Case { input: i, spelling: 1, output: 0, pre: 2, extra: 3, longflags: false, arg_form: 0, entropy: 0, dirperm: 5, fault: None, name_style: 2, link_style: 2, stderr_full: true, rust_log: 2, tmpdir: 2, sib_style: 0 });
         }
     }
     let mut enumerated = Vec::new();
@@ -765,10 +825,13 @@ fn build_tapes(sets: &[InputSet], tier: &str, seed: u64) -> (Vec<Vec<u64>>, Valu
         enumerated.push(json!({"scenario": case_json(sets, base), "intercepted_calls": clean.cli.trace.len(), "fault_cases": n_faults}));
     }
     // (3) seeded mixes
-    let n_seeded = if thorough { 250_000 } else { 2_500 };
+    let n_seeded: u64 = std::env::var("VERIF_OS_SEEDED").ok().and_then(|v| v.parse().ok()).unwrap_or(if thorough { 250_000 } else { 2_500 });
     for r in 0..n_seeded {
         let mut ch = Chooser::explore(Rng::derive(seed, "os-seeded", r));
         let mut c = decode_case(&mut ch, sets.len());
+        if c.extra == 9 && r % 6 != 0 {
+            c.extra = 4; // 256 files per run are expensive: one in six of those draws keeps them
+        }
         // most seeded cases carry a fault (the product above covers the fault-free space)
         if c.fault.is_none() && r % 4 != 0 {
             let t = targets();
@@ -833,7 +896,7 @@ fn main() {
         report.harness_errors.push("no injected fault fired in the whole batch: the shim is not in effect".into());
     }
     // determinism self-check: a slice twice, different worker count
-    let slice: Vec<Vec<u64>> = tapes.iter().step_by((tapes.len() / 600).max(1)).cloned().collect();
+    let slice: Vec<Vec<u64>> = tapes.iter().step_by((tapes.len() / 300).max(1)).cloned().collect();
     let a = run_batch(&sets, &slice);
     std::env::set_var("VERIF_WORKERS", "5");
     let b = run_batch(&sets, &slice);
